@@ -84,7 +84,7 @@ def keywords(schema: Any, acc=None) -> set:
     return acc
 
 
-def neutralise_flatten(schema: Any) -> Any:
+def neutralise_flatten(schema: Any, drop_required: bool = False) -> Any:
     """Neutraliser of the known finding "flattened objects": apischema emits
     allOf[{parent, additionalProperties: false | S}, {flattened, additionalProperties: false | S'}] +
     unevaluatedProperties: false (the documented output of examples/flattened.py), whose branches
@@ -120,6 +120,9 @@ def neutralise_flatten(schema: Any) -> Any:
         node.pop("additionalProperties", None)
         node.pop("patternProperties", None)
         node.pop("unevaluatedProperties", None)
+        if drop_required:  # second known finding: a flattened field skipped as a whole by serialization
+            node.pop("required", None)
+            node.pop("dependentRequired", None)
         if "allOf" in node:
             node["allOf"] = [flattened_branch(b, seen) for b in node["allOf"]]
         return node
